@@ -23,12 +23,15 @@ class Registry:
         self.consts = {}      # dotted name -> ('int', v) | ('str', v) | ('bytes', v) | ('enum', cls, member) | ('class', name)
         self.contracts = {}   # key -> dict
         self.exc = dict(BUILTIN_EXC)
+        self.specfuns = {}    # name -> callable(engine, st, [V...]) -> V   (ghost / spec functions)
         self._tags = {}
         self._tagc = itertools.count(10)
 
     # ---- declarations
-    def klass(self, name, bases=(), fields=None, real=None, exc=False):
-        self.classes[name] = dict(bases=list(bases), fields=dict(fields or {}), real=real)
+    def klass(self, name, bases=(), fields=None, real=None, exc=False, dict_facts=None):
+        """dict_facts: {field: clause over _owner, _k, _v} — representation invariant of a dict-valued field,
+        assumed when an entry is read through that field and checked when an entry is written through it"""
+        self.classes[name] = dict(bases=list(bases), fields=dict(fields or {}), real=real, dict_facts=dict(dict_facts or {}))
         if exc:
             self.exc[name] = bases[0] if bases else "Exception"
         self.consts.setdefault(name, ("class", name))
@@ -76,6 +79,13 @@ class Registry:
                 return t
         return None
 
+    def dict_fact(self, cls, field):
+        for c in self.mro(cls) if cls else []:
+            t = self.classes.get(c, {}).get("dict_facts", {}).get(field)
+            if t:
+                return t
+        return None
+
     def lookup(self, cls, meth, table):
         """find 'C.meth' in table along the MRO of cls"""
         for c in self.mro(cls) if cls else []:
@@ -111,5 +121,9 @@ def clause_tags(c):
 
 
 def clause_active(c, prop):
+    """does clause c generate a proof obligation when property `prop` is checked?
+    ("ASSUME", text) clauses are never proved: they are assumed for callers and listed in the trusted base"""
     tags = clause_tags(c)
+    if tags is not None and "ASSUME" in tags:
+        return False
     return tags is None or prop is None or prop in tags
